@@ -11,7 +11,7 @@ LEVEL = {
     "C03": ("proof", "Theorems C03_check_iff / C03_error_factual / C03_no_other_exception for every annotation the model can construct and every shape (front/back alignment stated with rev, independent of the index arithmetic) + exhaustive small-scope correspondence through TensorTypeBase.check." + CORR, "DESIGN.md 7 C03"),
     "C04": ("proof", "Finite theorem C04_tables (+ supersets, Int = Signed u Unsigned, same table on shared dtypes) re-proved on every run against DTYPES tuples reflected from the running code into coq/gen/GenDtypes.v; the model of `dtype in DTYPES` validated exhaustively against real check() for every class x library x dtype kind.", "DESIGN.md 7 C04"),
     "C05": ("proof", "Theorems C05_parse_eval / C05_parse_eval_named / C05_shape_level (whole shape strings: dimensions joined by spaces, one optional multi-axis marker) / C05_source_tables (operator semantics, precedence order, operator classes and strings, identifier pattern as translated from the source text on this run): every string of the stratified grammar is accepted, parsed to the grammar's postfix program and evaluates to the arithmetic value under every identifier-keyed scope (lexer round trip, count check, shunting-yard invariant, postfix evaluation; no bound on nesting or length)." + CORR, "DESIGN.md 7 C05"),
-    "C06": ("proof", "Theorems C06_accept_sound / C06_only_syntax_error / C06_no_late_error for every string (AcceptSound, ShapeSound: an accepted string consists of documented dimension forms with the grammar's postfix program, a rejection is SyntaxError, later evaluation fails only for unbound names or undefined arithmetic). Correspondence: corpus, exhaustive alphabet strings, mutations, identifier positions, noise; reference = independent recogniser." + CORR, "DESIGN.md 7 C06"),
+    "C06": ("proof", "Theorems C06_source_tables (parser tables as translated from the source text on this run) / C06_accept_sound / C06_only_syntax_error / C06_no_late_error for every string (AcceptSound, ShapeSound: an accepted string consists of documented dimension forms with the grammar's postfix program, a rejection is SyntaxError, later evaluation fails only for unbound names or undefined arithmetic). Correspondence: corpus, exhaustive alphabet strings, mutations, identifier positions, noise; reference = independent recogniser." + CORR, "DESIGN.md 7 C06"),
     "C07": ("proof", "Theorems C07_args_first / C07_return_checked / C07_value_only_after_both on the phase structure of run_call + correspondence with a side-effect log in the wrapped body: one fault in a single argument position or only in the return value." + CORR, "DESIGN.md 7 C07"),
     "C08": ("proof", "Theorems C08_first_failing_tensor / C08_tensor_report / C08_axis_report / C08_only_dltype_or_arithmetic (Reports, NoCrash: what a rejection asserts is true of the named tensor under the bindings established before it; the only non-DLType exceptions are the arithmetic ones = known finding K1). Correspondence: single-fault reports field by field, multi-fault factuality." + CORR, "DESIGN.md 7 C08"),
     "C09": ("proof", "Theorems C09_history_isolated / C09_calls_commute / C09_decoration_order over World.v (alias-shared annotation objects, provider-owned mappings) for the repaired semantics, machine-checked refutations for the legacy one. Correspondence: families sharing aliases and long-lived provider dicts, random decoration order, 8-thread runs, nested calls; thread interleavings are tested, not proved." + CORR, "DESIGN.md 7 C09"),
@@ -28,7 +28,7 @@ LEVEL = {
     "C20": ("proof", "Finite theorem C20_config over coq/gen/GenConfig.v, regenerated on every run from fresh interpreters with a masking import hook (8 masks), against the hand model of the if/elif chains; plus one accepted / one rejected checked call per available library.", "DESIGN.md 7 C20"),
 }
 TECH = {p: "Coq 8.16 proof about a hand-written executable model + extracted-model/implementation correspondence (differential execution)" for p in LEVEL}
-TECH["C05"] = TECH["C18"] = "Coq 8.16 proof about a hand-written executable model + source-to-Coq translation of the operator tables and formulas (GenSrc.v, SourceTie.v) re-proved on every run + extracted-model/implementation correspondence (differential execution)"
+TECH["C05"] = TECH["C06"] = TECH["C18"] = "Coq 8.16 proof about a hand-written executable model + source-to-Coq translation of the operator tables and formulas (GenSrc.v, SourceTie.v) re-proved on every run + extracted-model/implementation correspondence (differential execution)"
 TECH["C13"] = "Coq 8.16 theorems over the configuration model + exhaustive fresh-interpreter correspondence"
 TECH["C15"] = "Coq 8.16 proof about a hand-written executable model (structural relabelling theorem) + finite theorem (vm_compute) over tables regenerated from the running code + extracted-model/implementation correspondence"
 TECH["C04"] = TECH["C20"] = "Coq 8.16 finite theorem (vm_compute) over tables regenerated from the running code + exhaustive correspondence"
